@@ -247,7 +247,19 @@ func (e *ddEnv) step() bool {
 	if block == nil {
 		return false
 	}
-	if err := e.node.ProcessBlock(e.ctx, block); err != nil {
+	e.finishStep(block)
+	return true
+}
+
+// finishStep is the part of the block-processor loop body after the pop: ProcessBlock, then ask for
+// more requests. (Between the pop and ProcessBlock the real goroutine can be overtaken by the
+// incoming goroutine; the DS scheduler uses pop + finishStep to explore that.)
+func (e *ddEnv) finishStep(block wire.Block) bool {
+	err := e.node.ProcessBlock(e.ctx, block)
+	if f, ok := interface{}(e.node.state).(interface{ FinishedBlock() }); ok {
+		f.FinishedBlock() // as processBlocks does after ProcessBlock returned
+	}
+	if err != nil {
 		c := errorsCause(err)
 		if c != ErrBlockNotNextBlock && c != ErrBlockNotAdded {
 			if e.procErr == nil {
